@@ -26,6 +26,24 @@ class unit:
 Unit = unit()
 
 
+def format_int(value: int) -> str:
+    """Decimal text of an integer of any size.
+
+    CPython refuses str() of an integer with more than sys.get_int_max_str_digits() digits (4300 by default), whereas
+    Michelson integers are arbitrary precision: such numbers are converted in chunks that stay below every limit
+    the interpreter accepts (the smallest one is 640 digits)."""
+    try:
+        return str(value)
+    except ValueError:
+        sign, value = ('-', -value) if value < 0 else ('', value)
+        chunk, parts = 10**600, []
+        while value >= chunk:
+            value, rest = divmod(value, chunk)
+            parts.append(str(rest).zfill(600))
+        parts.append(str(value))
+        return sign + ''.join(reversed(parts))
+
+
 class TrueLiteral(Micheline, prim='True'):
     pass
 
@@ -115,7 +133,8 @@ class IntType(MichelsonType, prim='int'):
         return hash(self.value)
 
     def __repr__(self):
-        return str(self.value)
+        # NOTE: every instruction prints its operands in the execution trace: this must work for numbers of any size
+        return format_int(self.value)
 
     def __int__(self):
         return self.value
